@@ -52,6 +52,11 @@ DispViol(e, exp) ==
 ConsumeViol(e) ==
     IF e.leftover = 0 THEN {} ELSE {"C04/consumed-wrong-length/c=" \o Str(e.c)}
 
+\* C07: the server always offers REPLY_ACK (bit 3), whatever the device offers
+OfferViol(e) ==
+    IF e.c = GET_PROTOCOL_FEATURES /\ e.h = "ok" /\ e.nout = 1 /\ e.out[1].size = 8 /\ (e.out[1].val[1] \div 8) % 2 = 0
+    THEN {"C07/backend/reply-ack-not-offered"} ELSE {}
+
 CrashViol(e) ==
     IF e.res = "panic" THEN {"C05/panic/c=" \o Str(e.c) \o "/var=" \o e.var}
     ELSE IF e.res \notin {"ok"} /\ SubSeq(e.res, 1, 4) = "hang" THEN {"C04/hang/c=" \o Str(e.c)}
@@ -66,12 +71,34 @@ TVReset == /\ l <= Len(Rec) /\ Rec[l].ev = "reset"
            /\ cur' = Rec[l].id
            /\ UNCHANGED <<viol, judged>>
 
+\* C08: a request cut off by end-of-stream: error (clean "disconnected" only before the first byte),
+\* nothing dispatched, nothing answered, no hang
+CutViol(e) ==
+    LET tag == "c=" \o Str(e.c) \o "/at=" \o (IF e.cut = 0 THEN "0" ELSE IF e.cut < HDR_SIZE THEN "header" ELSE IF e.cut = HDR_SIZE THEN "header-end" ELSE "body") IN
+    (IF e.ncalls # 0 THEN {"C08/backend/truncated-request-dispatched/" \o tag} ELSE {})
+    \cup (IF e.nout # 0 THEN {"C08/backend/truncated-request-answered/" \o tag} ELSE {})
+    \cup (IF e.res = "ok" THEN {"C08/backend/truncation-not-reported/" \o tag}
+          ELSE IF e.res = "panic" THEN {"C05/panic/c=" \o Str(e.c) \o "/var=cut"}
+          ELSE IF e.res \notin {"err:Disconnected", "err:PartialMessage", "err:InvalidMessage", "err:SocketBroken", "err:SocketError"}
+                  /\ e.res \notin {"err:InactiveOperation", "err:InactiveFeature", "err:InvalidParam", "err:IncorrectFds"}
+               THEN {"C08/backend/blocked-on-truncated-stream/" \o tag}
+          ELSE IF e.cut = 0 /\ e.res # "err:Disconnected" THEN {"C08/backend/boundary-eof-not-disconnected/" \o tag}
+          ELSE IF e.cut > 0 /\ e.res = "err:Disconnected" THEN {"C08/backend/mid-message-eof-reported-as-clean-disconnect/" \o tag}
+          ELSE {})
+
 TVReq == /\ l <= Len(Rec) /\ Rec[l].ev = "req"
          /\ LET e == Rec[l]
                 a == [c |-> e.c, nr |-> e.nr, h |-> e.h, v |-> ToSet(e.v)]
                 exp == SrvExpect(s, a, devPF)
-            IN IF e.var = "valid"
-               THEN /\ viol' = AddViol(viol, OutViol(e, exp) \cup DispViol(e, exp) \cup ConsumeViol(e) \cup CrashViol(e), cur)
+                dev == OutViol(e, exp) \cup DispViol(e, exp) \cup ConsumeViol(e) \cup CrashViol(e) \cup OfferViol(e)
+            IN IF e.cut >= 0
+               THEN /\ viol' = AddViol(viol, CutViol(e), cur)
+                    /\ judged' = judged + 1
+                    /\ UNCHANGED s
+               ELSE IF e.var \in {"valid", "fixed"}
+               THEN /\ viol' = AddViol(viol, IF e.seg = <<>> THEN dev
+                                             ELSE IF dev = {} THEN {}
+                                             ELSE {"C08/backend/segmented-request-mishandled/c=" \o Str(e.c) \o "/" \o e.res}, cur)
                     /\ s' = SrvNext(s, a, devPF)
                     /\ judged' = judged + 1
                ELSE /\ viol' = AddViol(viol, CrashViol(e), cur)
